@@ -165,9 +165,10 @@ def main(argv=None):
                                                                  '\n    ')))))
     print('%d entries, %d as expected, %d not' % (
         len(results), len(results) - len(bad), len(bad)))
-    und = [(r['id'], sorted(k for k, v in r.get('rc', {}).items() if v == 2))
+    und = [(r['id'], sorted(k for k, v in r['rc'].items() if v == 2))
            for r in results if r.get('expect') == 'silent'
-           and any(v == 2 for v in r.get('rc', {}).values())]
+           and isinstance(r.get('rc'), dict)
+           and any(v == 2 for v in r['rc'].values())]
     if und:
         print('behaviour-preserving variants a check could not decide '
               '(exit 2, no alarm): %d cells -- %s' % (
